@@ -3,7 +3,7 @@
 run the check against it, and keep it under /verif/seeded/<Cxx>-<x>/ if confirmed."""
 import json, os, shutil, subprocess, sys, tempfile
 cid, x = sys.argv[1], sys.argv[2]
-src = f"/tmp/seed/{cid}.out/{x}"
+src = f"{os.environ.get('SEEDSRC', '/tmp/seed')}/{cid}.out/{x}"
 patch = sys.argv[3] if len(sys.argv) > 3 else src + "/patch.diff"
 tmpd = tempfile.mkdtemp(prefix="seedkeep-")
 for f in ("demo_test.go", "meta.json"):
